@@ -55,7 +55,7 @@ fn c15_int_spec_roundtrip() {
     kani::cover!(n == 11 && value == u64::MAX);
 }
 
-// vp: props=C15,C14; tag=C15.int.encode; kind=complete; tier=quick
+// vp: props=C15,C14,C11; tag=C15.int.encode; kind=complete; tier=quick
 // encode writes exactly the RFC 7541 §5.1 octets, for every u64, prefix size and flags; no overflow / panic
 #[kani::proof]
 #[kani::unwind(13)]
@@ -79,7 +79,7 @@ fn c15_int_encode_matches_spec() {
     kani::cover!(n == 11 && size == 1);
 }
 
-// vp: props=C15,C06; tag=C15.int.decode.sound; kind=complete; tier=quick
+// vp: props=C15,C06,C11; tag=C15.int.decode.sound; kind=complete; tier=quick
 // For every byte string (<= 12 octets, enough: see header) and prefix size:
 //  * Ok((f, v))  =>  (f, v) is the exact RFC value (never a wrapped one) and exactly the encoding is consumed;
 //  * every encoding with at most nine continuation octets decodes to its RFC value;
